@@ -90,6 +90,114 @@ def id_histories(rep, tier):
     return len(cases)
 
 
+def _deep_worker(blob):
+    """Runs in a pool process: unpickle a deep tree, hash it, compare it with
+    a copy built here, send it back.  Failures are returned as values."""
+    import copy
+    try:
+        t = pickle.loads(blob)
+        ids = []
+        x = t
+        while not x.is_leaf():
+            ids.append(x.id)
+            x = x.data[-1]
+        ids.append(x.id)
+        c = copy.deepcopy(t)
+        return pickle.dumps(('ok', hash(t), t == c, hash(c) == hash(t), ids,
+                             t))
+    except BaseException as e:  # noqa: RecursionError included
+        return pickle.dumps(('ERROR', type(e).__name__ + ': ' + str(e)[:200]))
+
+
+def deep_trees(rep, tier):
+    """SExpr's laws at a depth TLC cannot build (its JSON reader stops at 255
+    levels): (not (not ... x)) nested `depth` deep, freshly parsed and freshly
+    built - hash and == agree with token equality, deepcopy gives an equal
+    tree with new ids, a pickle round trip (in process and through a worker,
+    both directions) keeps tokens and ids.  Every operation must ANSWER."""
+    import copy
+    import multiprocessing
+    from ddsmt import nodes, nodeio
+    Node = nodes.Node
+    n = 0
+
+    def spine_ids(t):
+        ids = []
+        while not t.is_leaf():
+            ids.append(t.id)
+            t = t.data[-1]
+        ids.append(t.id)
+        return ids
+
+    for depth in ((40, 3000) if tier == 'quick' else (40, 600, 3000, 20000)):
+        text = '(not ' * depth + 'x' + ')' * depth
+        other = '(not ' * depth + 'y' + ')' * depth
+        builders = {
+            'parsed': lambda tx: list(nodeio.parse_smtlib(tx))[0],
+        }
+
+        def built(tx):
+            t = Node(tx[5 * depth])
+            for _ in range(depth):
+                t = Node(Node('not'), t)
+            return t
+        builders['built'] = built
+        for how, mk in builders.items():
+            n += 1
+            rep.count()
+            sig = f'deep:{how}:depth={depth}'
+            rp = {'deep': [how, depth]}
+            try:
+                a, b, c = mk(text), mk(text), mk(other)
+                ops = {}
+                ops['hash'] = hash(a) == hash(b)
+                ops['eq'] = (a == b) and not (a != b)
+                ops['neq'] = (a != c) and not (a == c)
+                d = copy.deepcopy(a)
+                ops['deepcopy-equal'] = d == a
+                ops['deepcopy-fresh-ids'] = not (set(spine_ids(d))
+                                                 & set(spine_ids(a)))
+                e = pickle.loads(pickle.dumps(a))
+                ops['pickle-equal'] = e == a and hash(e) == hash(a)
+                ops['pickle-ids'] = spine_ids(e) == spine_ids(a)
+                ops['count'] = nodes.count_nodes(a) == 2 * depth + 1
+                ops['dfs'] = sum(1 for _ in nodes.dfs(a)) == 2 * depth + 1
+            except BaseException as ex:  # noqa: RecursionError included
+                rep.violation(sig + ':raises',
+                              f'an operation on a tree nested {depth} deep '
+                              f'({how}) raises {type(ex).__name__}', rp)
+                continue
+            for k, v in ops.items():
+                if not v:
+                    rep.violation(f'{sig}:{k}',
+                                  f'law {k} fails on a tree nested {depth} '
+                                  f'deep ({how})', rp)
+            if depth > 255:
+                rep.nontrivial(sig)
+            # through a worker, both directions; a fresh tree (nothing asked
+            # for its hash yet)
+            f = mk(text)
+            with multiprocessing.get_context('fork').Pool(1) as pool:
+                try:
+                    res = pickle.loads(pool.apply_async(
+                        _deep_worker, (pickle.dumps(f), )).get(timeout=300))
+                except BaseException as ex:  # noqa
+                    res = ('ERROR', type(ex).__name__)
+            if res[0] == 'ERROR':
+                rep.violation(sig + ':xproc-raises',
+                              f'a worker cannot handle a tree nested {depth} '
+                              f'deep ({how}): {res[1]}', rp)
+            else:
+                _, h, eqc, hc, ids, back = res
+                if not (eqc and hc and h == hash(f)
+                        and ids == spine_ids(f) and back == f
+                        and spine_ids(back) == spine_ids(f)):
+                    rep.violation(sig + ':xproc',
+                                  f'a tree nested {depth} deep ({how}) '
+                                  f'changes on its way through a worker', rp)
+    return n
+
+
 def has_singleton_str(t):
     if isinstance(t, str):
         return False
@@ -212,6 +320,9 @@ def main():
     if a.replay:
         with open(a.replay) as f:
             r = json.load(f)['replay']
+        if 'deep' in r:
+            deep_trees(rep, a.tier)
+            return rep.finish()
         _, bad = check_forest(nodes, rep, r['forest'], r['obs'],
                               EXPANSIONS[r['expansion']], 0)
         print(bad)
@@ -309,6 +420,7 @@ def main():
     pool.close()
     pool.join()
     rep.cov['id_histories'] = id_histories(rep, a.tier)
+    rep.cov['deep_trees'] = deep_trees(rep, a.tier)
     rep.cov['traces_validated_against_impl'] = n
     rep.cov['cross_process_cases'] = nx
     rep.cov['exhaustive'] = True
